@@ -12,14 +12,15 @@ import (
 // of ref/refschema are derived ----
 
 type T struct {
-	Name    string
-	Kind    string // int string bool bytes struct map list union enum
-	Repr    string // struct: map tuple stringjoin listpairs; union: keyed kinded stringprefix; enum: string int
-	Delim   string
-	Fields  []F
-	Members []M
-	Elem    string // map value / list element type name
-	NoGen   bool   // outside the code generator's feature set
+	Name         string
+	Kind         string // int string bool bytes struct map list union enum
+	Repr         string // struct: map tuple stringjoin listpairs; union: keyed kinded stringprefix; enum: string int
+	Delim        string
+	Fields       []F
+	Members      []M
+	Elem         string // map value / list element type name
+	ElemNullable bool
+	NoGen        bool // outside the code generator's feature set
 }
 
 type F struct {
@@ -54,6 +55,16 @@ var Family = []*T{
 	{Name: "UnionSP", Kind: "union", Repr: "stringprefix", Delim: ":", Members: []M{{Type: "Foo", Discr: "f"}, {Type: "Bar", Discr: "b"}}},
 	{Name: "EnumS", Kind: "enum", Repr: "string", NoGen: true, Members: []M{{Type: "Yes", Discr: "Yes"}, {Type: "No", Discr: "n"}}},
 	{Name: "EnumI", Kind: "enum", Repr: "int", NoGen: true, Members: []M{{Type: "One", Int: 1}, {Type: "Two", Int: 2}}},
+	// compositions: unions, structs and nullable values inside containers; maybes of composite types;
+	// an enum whose representation strings are other members' names
+	{Name: "MapSU", Kind: "map", Elem: "UnionSP"},
+	{Name: "ListU", Kind: "list", Elem: "UnionK"},
+	{Name: "MapSP", Kind: "map", Elem: "Plain"},
+	{Name: "ListT", Kind: "list", Elem: "Tuple"},
+	{Name: "MapSN", Kind: "map", Elem: "Int", ElemNullable: true},
+	{Name: "ListN", Kind: "list", Elem: "String", ElemNullable: true},
+	{Name: "OptComp", Kind: "struct", Repr: "map", Fields: []F{{Name: "P", Type: "Plain", Optional: true}, {Name: "U", Type: "UnionSP", Nullable: true}, {Name: "L", Type: "ListI", Optional: true}, {Name: "K", Type: "UnionK", Optional: true, Nullable: true}, {Name: "J", Type: "Join", Optional: true}}},
+	{Name: "EnumX", Kind: "enum", Repr: "string", NoGen: true, Members: []M{{Type: "Low", Discr: "Med"}, {Type: "Med", Discr: "High"}, {Type: "High", Discr: "Max"}}},
 	{Name: "Outer", Kind: "struct", Repr: "map", Fields: []F{{Name: "P", Type: "Plain"}, {Name: "L", Type: "ListI"}, {Name: "M", Type: "MapSI"}, {Name: "U", Type: "UnionK"}}},
 	{Name: "Nested", Kind: "struct", Repr: "map", NoGen: true, Fields: []F{{Name: "P", Type: "Plain"}, {Name: "L", Type: "ListI"}, {Name: "M", Type: "MapSI"}, {Name: "U", Type: "UnionK"}, {Name: "E", Type: "EnumS"}, {Name: "EI", Type: "EnumI"}, {Name: "By", Type: "Bytes"}}},
 }
@@ -87,9 +98,9 @@ func Build(gen bool) *schema.TypeSystem {
 		case "bytes":
 			ts.Accumulate(schema.SpawnBytes(n))
 		case "map":
-			ts.Accumulate(schema.SpawnMap(n, "String", schema.TypeName(t.Elem), false))
+			ts.Accumulate(schema.SpawnMap(n, "String", schema.TypeName(t.Elem), t.ElemNullable))
 		case "list":
-			ts.Accumulate(schema.SpawnList(n, schema.TypeName(t.Elem), false))
+			ts.Accumulate(schema.SpawnList(n, schema.TypeName(t.Elem), t.ElemNullable))
 		case "struct":
 			var fs []schema.StructField
 			renames := map[string]string{}
@@ -218,6 +229,26 @@ type UnionSP struct {
 	Bar *string
 }
 
+type MapSU struct {
+	Keys   []string
+	Values map[string]UnionSP
+}
+
+type ListU []UnionK
+
+type MapSN struct {
+	Keys   []string
+	Values map[string]*int64
+}
+
+type OptComp struct {
+	P *Plain
+	U *UnionSP
+	L []int64 // optional through a nilable, non-pointer Go type
+	K **UnionK
+	J *Join
+}
+
 type Nested struct {
 	P  Plain
 	L  []int64
@@ -226,4 +257,43 @@ type Nested struct {
 	E  string
 	EI int64
 	By []byte
+}
+
+// GoPtr: a nil pointer of the user-supplied Go type bound to a schema type, or nil if the family declares none.
+func GoPtr(name string) interface{} {
+	switch name {
+	case "Plain":
+		return (*Plain)(nil)
+	case "Narrow":
+		return (*Narrow)(nil)
+	case "OptNull":
+		return (*OptNull)(nil)
+	case "Tuple":
+		return (*Tuple)(nil)
+	case "Join":
+		return (*Join)(nil)
+	case "Pairs":
+		return (*Pairs)(nil)
+	case "MapSI":
+		return (*MapSI)(nil)
+	case "ListS":
+		return (*ListS)(nil)
+	case "UnionK":
+		return (*UnionK)(nil)
+	case "UnionKinded":
+		return (*UnionKinded)(nil)
+	case "UnionSP":
+		return (*UnionSP)(nil)
+	case "Nested":
+		return (*Nested)(nil)
+	case "MapSU":
+		return (*MapSU)(nil)
+	case "ListU":
+		return (*ListU)(nil)
+	case "MapSN":
+		return (*MapSN)(nil)
+	case "OptComp":
+		return (*OptComp)(nil)
+	}
+	return nil
 }
